@@ -18,6 +18,7 @@ import (
 	"syscall"
 
 	"github.com/cosmos/cosmos-proto/zzverif/glue"
+	"google.golang.org/protobuf/encoding/protowire"
 	"google.golang.org/protobuf/proto"
 	"google.golang.org/protobuf/reflect/protoreflect"
 	"google.golang.org/protobuf/runtime/protoiface"
@@ -382,6 +383,11 @@ func totalInput(d MD, tn string, idx int) ([]byte, string) {
 	g := NewGen(seed, o)
 	r := rand.New(rand.NewSource(seed ^ 0x1234))
 	t := &totalGen{r: r, g: g, d: d, w: &WireGen{R: r, G: g, Unknown: true, NonMin: true, Muts: map[string]int{}}}
+	if idx%64 == 63 {
+		if b, ok := t.manySmallRecords(); ok {
+			return b, "many-small-records-of-one-field"
+		}
+	}
 	return t.input(idx % nTotalClasses)
 }
 
@@ -643,4 +649,73 @@ func engineDepth(rep *Report) {
 		}
 	}
 	setProgress(-1, -1, 0)
+}
+
+// manySmallRecords: thousands of minimal records of one repeated or map field (separate packed runs of one or two
+// elements, single elements, tiny map entries): decoding must stay linear in the input (a decoder that regrows the
+// whole list per record allocates quadratically).
+func (t *totalGen) manySmallRecords() ([]byte, bool) {
+	r := t.r
+	var cands []FD
+	fs := t.d.Fields()
+	for i := 0; i < fs.Len(); i++ {
+		if fd := fs.Get(i); fd.IsList() || fd.IsMap() {
+			cands = append(cands, fd)
+		}
+	}
+	if len(cands) == 0 {
+		return nil, false
+	}
+	fd := cands[r.Intn(len(cands))]
+	elem := func(k protoreflect.Kind, i int) []byte { // payload of one element, without tag
+		switch wireTypeOfKind(k) {
+		case protowire.VarintType:
+			return []byte{byte(i % 128)}
+		case protowire.Fixed32Type:
+			return []byte{byte(i), 0, 0, 0}
+		case protowire.Fixed64Type:
+			return []byte{byte(i), 0, 0, 0, 0, 0, 0, 0}
+		}
+		if k == protoreflect.MessageKind || k == protoreflect.GroupKind {
+			return []byte{0}
+		}
+		return []byte{1, byte('a' + i%26)}
+	}
+	n := 2000 + r.Intn(8000)
+	var b []byte
+	tag2 := protowire.AppendTag(nil, fd.Number(), protowire.BytesType)
+	for i := 0; i < n; i++ {
+		switch {
+		case fd.IsMap():
+			kk, vk := fd.MapKey().Kind(), fd.MapValue().Kind()
+			var ent []byte
+			ent = protowire.AppendTag(ent, 1, wireTypeOfKind(kk))
+			if wireTypeOfKind(kk) == protowire.VarintType {
+				ent = protowire.AppendVarint(ent, uint64(i))
+			} else if wireTypeOfKind(kk) == protowire.BytesType {
+				ent = protowire.AppendString(ent, strconv.Itoa(i))
+			} else {
+				ent = append(ent, elem(kk, i)...)
+			}
+			if r.Intn(4) != 0 {
+				ent = protowire.AppendTag(ent, 2, wireTypeOfKind(vk))
+				ent = append(ent, elem(vk, i)...)
+			}
+			b = protowire.AppendBytes(append(b, tag2...), ent)
+		case wireTypeOfKind(fd.Kind()) != protowire.BytesType:
+			if r.Intn(3) != 0 { // a packed run of one or two elements
+				run := elem(fd.Kind(), i)
+				if r.Intn(2) == 0 {
+					run = append(run, elem(fd.Kind(), i+1)...)
+				}
+				b = protowire.AppendBytes(append(b, tag2...), run)
+			} else {
+				b = protowire.AppendTag(b, fd.Number(), wireTypeOfKind(fd.Kind()))
+				b = append(b, elem(fd.Kind(), i)...)
+			}
+		default:
+			b = append(append(b, tag2...), elem(fd.Kind(), i)...)
+		}
+	}
+	return b, true
 }
